@@ -1023,10 +1023,15 @@ func (fe *FuncEnc) loopInsertGuard(x *ssa.Next, mt *types.Map, m string) (string
 						continue
 					}
 					if callee := c.StaticCallee(); callee != nil {
-						if ct := fe.eng.contractFor(callee); ct != nil && (ct.Pure || (ct.HasAssigns && len(ct.Assigns) == 0)) {
+						if ct := fe.eng.contractFor(callee); ct != nil && (ct.Pure || (ct.HasAssigns && assignsNoMaps(ct.Assigns))) {
 							continue
 						}
 						if fe.eng.isPureExternal(callee) {
+							continue
+						}
+					} else if named, ok := c.Value.Type().(*types.Named); ok && !c.IsInvoke() && named.Obj().Pkg() != nil {
+						// value of a named function type with a contract on the type
+						if ct := fe.eng.cs.Funcs[named.Obj().Pkg().Path()+".("+named.Obj().Name()+").call"]; ct != nil && (ct.Pure || (ct.HasAssigns && assignsNoMaps(ct.Assigns))) {
 							continue
 						}
 					}
@@ -1036,6 +1041,17 @@ func (fe *FuncEnc) loopInsertGuard(x *ssa.Next, mt *types.Map, m string) (string
 		}
 	}
 	return and(guards...), true
+}
+
+// assignsNoMaps: the write frame names only ghost variables (plain identifiers):
+// no map contents, no heap fields.
+func assignsNoMaps(as []CExpr) bool {
+	for _, a := range as {
+		if _, ok := a.(*CIdent); !ok {
+			return false
+		}
+	}
+	return true
 }
 
 func (fe *FuncEnc) ret(x *ssa.Return, st *State) {
